@@ -2109,6 +2109,24 @@ public:
         s << "\n";
     }
 
+#ifdef CTPG_VERIF
+    // Verification hook: read-only view of the constructed LR table (symbols and rules by user numbering).
+    // kind: 0 error, 1 success, 2 shift, 3 shift of the error symbol, 4 reduce, 5 reduce/reduce conflict
+    struct ctpg_verif_cell { int kind; int arg; };
+    constexpr size_t ctpg_verif_state_count() const { return state_count; }
+    constexpr ctpg_verif_cell ctpg_verif_action(size_t state, size_t term_idx) const
+    {
+        const auto& e = parse_table[state][get_parse_table_idx(true, size16_t(term_idx))];
+        bool red = e.kind == parse_table_entry_kind::reduce || e.kind == parse_table_entry_kind::rr_conflict;
+        return ctpg_verif_cell{ int(e.kind), red && e.arg != uninitialized16 ? int(gi.rule_infos[e.arg].r_idx) : int(e.arg) };
+    }
+    constexpr int ctpg_verif_goto(size_t state, size_t nterm_idx) const
+    {
+        const auto& e = parse_table[state][get_parse_table_idx(false, size16_t(nterm_idx))];
+        return is_shift(e.kind) ? int(e.arg) : -1;
+    }
+#endif
+
 private:
     static const size_t max_rule_element_count = meta::max_v<1, Rules::n...>;
     static const size16_t eof_idx = sizeof...(Terms);
